@@ -7,6 +7,7 @@
 package main
 
 import (
+	"strings"
 	"runtime"
 	"bytes"
 	"fmt"
@@ -455,6 +456,35 @@ func main() {
 			run.Distinct("hist/" + a.n)
 		})
 		fmt.Printf("C17 pairwise histories done at %.1fs\n", time.Since(t0).Seconds())
+	}
+
+	// ---- the FULL structured candidate family (the one C01/C05 offer to Verify; 957 strings around
+	// the honest proof of key a) as the proof of one side, the other side honest: true for exactly
+	// one string, on either side.
+	{
+		ka, kb := keys[0], keys[1]
+		pa := honestPt(ka, 0, 0)
+		ea := refbls.EncodeG1(pa)
+		eb := refbls.EncodeG1(honestPt(kb, 0, 0))
+		cands := refbls.G1Candidates(pa, hpt[0][0])
+		ev.Par(len(cands), func(i int) {
+			c := cands[i]
+			want := bytes.Equal(c.Bytes, ea)
+			g1, e1 := crypto.SPOCKVerify(ka.pk, c.Bytes, kb.pk, eb)
+			g2, e2 := crypto.SPOCKVerify(kb.pk, eb, ka.pk, c.Bytes)
+			run.Add("evaluations", 2)
+			if e1 != nil || e2 != nil || g1 != want || g2 != want {
+				cl := c.Name
+				if k := strings.IndexByte(cl, '/'); k >= 0 {
+					cl = cl[:k]
+				}
+				run.Violation("SPOCKVerify:family:"+cl, fmt.Sprintf("candidate %s as the proof of key a, honest proof of b on the other side: (%v,%v) / swapped (%v,%v), reference %v", c.Name, g1, e1, g2, e2, want),
+					replay{Call: "SPOCKVerify with a candidate-family proof", Pk1: ev.Hex(ka.pk.Encode()), Sk1: ev.Hex(refbls.ScalarBytes(ka.sk)), Proof1: ev.Hex(c.Bytes), Pk2: ev.Hex(kb.pk.Encode()), Sk2: ev.Hex(refbls.ScalarBytes(kb.sk)), Proof2: ev.Hex(eb),
+						Data: ev.Hex(data[0]), Tag: tags[0], Exp: fmt.Sprint(want), Got: fmt.Sprint(g1, g2), Note: "candidate " + c.Name})
+			}
+			run.Distinct("fam/" + c.Name)
+		})
+		fmt.Printf("C17 candidate family done at %.1fs\n", time.Since(t0).Seconds())
 	}
 
 	// ---- SPOCKProve == Sign, SPOCKVerifyAgainstData == Verify
